@@ -13,6 +13,7 @@ void logon() {
   add_action("cmd_any", "", 1);
   add_action("cmd_do", "do");
   add_action("cmd_x", "x");
+  add_action("cmd_y", "y");
   add_action("cmd_nf", "nf");
 #ifdef LOGON_SCRIPT
   run(LOGON_SCRIPT);
@@ -56,6 +57,7 @@ void after_exec(string t, string from) {
   add_action("cmd_any", "", 1);
   add_action("cmd_do", "do");
   add_action("cmd_x", "x");
+  add_action("cmd_y", "y");
   add_action("cmd_nf", "nf");
   if (t) { set_tag(t); rec("NAME " + t + " " + file_name(this_object())); }
   rec("EXECD " + me() + " " + from);
